@@ -15,6 +15,16 @@ def sh(cmd, cwd=None, env=None, timeout=3000):
     p = subprocess.run(cmd, shell=True, cwd=cwd, env=env or ENV, stdout=subprocess.PIPE, stderr=subprocess.STDOUT, text=True, timeout=timeout)
     return p.returncode, p.stdout
 
+def baseline_regressed(junit):
+    import xml.etree.ElementTree as ET
+    base = set(json.load(open('/root/.vp/BASELINE.json'))['stable_pass'])
+    passed = set()
+    for tc in ET.parse(junit).getroot().iter('testcase'):
+        if not any(ch.tag in ('failure', 'error', 'skipped') for ch in tc):
+            passed.add('%s::%s' % (tc.get('classname'), tc.get('name')))
+    return sorted(base - passed)
+
+
 for k in ks:
     sid = '%s-%s' % (prop, int(k) + offset)
     dst = os.path.join('/verif/seeded', sid)
@@ -29,18 +39,19 @@ for k in ks:
         rc0, out0 = sh('/venv/bin/python -W ignore %s/demo.py' % dst, cwd=tmp, env=env)
         rca, outa = sh('git init -q . && git apply --whitespace=nowarn %s/patch.diff' % dst, cwd=tmp)
         rc1, out1 = sh('/venv/bin/python -W ignore %s/demo.py' % dst, cwd=tmp, env=env)
-        rct, outt = sh('/venv/bin/python -m pytest -q -p no:cacheprovider --timeout=900 --continue-on-collection-errors 2>&1 | tail -1', cwd=tmp, env=env)
+        rct, outt = sh('/venv/bin/python -m pytest -q -p no:cacheprovider --timeout=900 --continue-on-collection-errors --junitxml=%s/j.xml 2>&1 | tail -1' % tmp, cwd=tmp, env=env)
+        regressed = baseline_regressed(os.path.join(tmp, 'j.xml'))
         rcc, outc = sh('VERIF_REPO_SRC=%s/src ./check %s --tier quick' % (tmp, prop), cwd='/verif')
         summary = [l for l in outc.splitlines() if ' x clause' in l or l.startswith(prop + ' ') or 'MACHINERY' in l][:12]
         meta = {'id': sid, 'property': prop, 'origin': 'independent sub-agent in a scratch worktree of /repo, given only the property text',
                 'needs_to_manifest': notes.strip()[:1500],
                 'confirmed': {'patch_applies': rca == 0, 'demo_without_change_exit': rc0, 'demo_with_change_exit': rc1,
                               'demo_with_change_last_line': (out1.strip().splitlines() or [''])[-1][:300],
-                              'pytest_with_change': outt.strip()[-200:]},
+                              'pytest_with_change': outt.strip()[-200:], 'baseline_tests_regressed': regressed},
                 'ran': ['demo.py on an unpatched scratch copy of /repo', 'git apply patch.diff on the copy', 'demo.py again', 'full pytest on the copy',
                         'VERIF_REPO_SRC=<copy>/src ./check %s --tier quick' % prop],
                 'check_result': {'exit': rcc, 'summary': summary}}
         json.dump(meta, open(os.path.join(dst, 'meta.json'), 'w'), indent=1)
-        print(sid, 'applies', rca == 0, 'demo', rc0, '->', rc1, '| pytest:', outt.strip()[-60:], '| check exit', rcc, '|', '; '.join(s.strip() for s in summary[:3])[:200])
+        print(sid, 'applies', rca == 0, 'demo', rc0, '->', rc1, '| pytest:', outt.strip()[-60:], '| regressed:', regressed, '| check exit', rcc, '|', '; '.join(s.strip() for s in summary[:3])[:200])
     finally:
         shutil.rmtree(tmp, ignore_errors=True)
